@@ -252,6 +252,12 @@ class StructWorld(World):
         shown = [k for k in o['mem'] if not o['serr'] and k not in o['merr']]
         if any(o['mem'][k] != o['str'][k] for k in shown):
             return 'struct != members'
+        # a driver assignment is nothing but propagation: the other side has to show the assigned value(s);
+        # a member / struct that kept its old value or its error flag did not follow
+        if a.get('act') == 'as' and (o['merr'] or any(o['mem'][k] != a['v'][k] for k in o['mem'])):
+            return 'struct != members'
+        if a.get('act') == 'am' and (o['serr'] or o['str'][a['m']] != a['v']):
+            return 'struct != members'
         if (any(o['vmem'][k] != (NONE if k in o['merr'] else o['mem'][k]) for k in o['mem'])
                 or any(o['vstr'][k] != (GARBAGE if o['serr'] else o['str'][k]) for k in o['str'])):
             return 'stream != cache'
